@@ -491,6 +491,76 @@ def x1_join_table(ctx: Ctx):
     ctx.check('_join_bounds(s1, s2, widen=self._widen)' in t, ANA, j, f'{INST}._join', 'the instance join is _join_bounds under the current widening switch', 'changed')
 
 
+# ----------------------------------------------------------------------
+# T3: the boolean skeleton of branch refinement
+
+def t3_refinement_skeleton(ctx: Ctx):
+    """What a condition being true / false implies about its comparisons: `and` only when true, `or` only when
+    false, `not` flips.  The comparison leaves are replaced by tokens; the skeleton is evaluated for every shape."""
+    from ..lang import lang
+    L = lang(ctx.repo)
+    meths = {s.name: s for s in ctx.repo.cls(ANA, INST).body if isinstance(s, ast.FunctionDef)}
+    fn = meths.get('_implied')
+    if fn is None:
+        raise ShapeError('_implied not found')
+    ctx.functions_analysed.add((ANA, f'{INST}._implied'))
+
+    def atom(name: str) -> Obj:
+        return Obj('Compare', ops=[('enum', 'CompareOp', 'LT')], args=[name, 0], name=name)
+
+    def leaf(cond, truth):
+        return [(cond.fields['name'], truth)]
+    A, B = atom('a'), atom('b')
+
+    def un(x):
+        return Obj('Not', arg=x, args=(x,))
+
+    def nary(kind, *xs):
+        return Obj(kind, args=list(xs))
+    shapes = {
+        'a': A, 'not a': un(A), 'a and b': nary('And', A, B), 'a or b': nary('Or', A, B), 'not (a and b)': un(nary('And', A, B)),
+        'not (a or b)': un(nary('Or', A, B)), 'a and not b': nary('And', A, un(B)), 'not a or b': nary('Or', un(A), B),
+        '(a or b) and a': nary('And', nary('Or', A, B), A), 'not (not a)': un(un(A)), '(a and b) or a': nary('Or', nary('And', A, B), A),
+        'not (a and not b)': un(nary('And', A, un(B))),
+    }
+
+    def ev(c: Obj, env: dict) -> bool:
+        if c.kind == 'Compare':
+            return env[c.fields['name']]
+        if c.kind == 'Not':
+            return not ev(c.fields['arg'], env)
+        vals = [ev(x, env) for x in c.fields['args']]
+        return all(vals) if c.kind == 'And' else any(vals)
+    bad = None
+    n = 0
+    for txt, c in shapes.items():
+        for truth in (True, False):
+            it = Interp({}, methods=meths, is_a=L.is_a, overrides={'self._implied_compare': leaf})
+            got = it.call_function(fn, [c, truth], bound_self=True)
+            n += 1
+            for a in (False, True):
+                for b in (False, True):
+                    env = {'a': a, 'b': b}
+                    if ev(c, env) != truth:
+                        continue
+                    for name, t in got:
+                        if env[name] != t and bad is None:
+                            bad = f'`{txt}` being {truth} is read as implying `{name}` is {t}, but a={a}, b={b} makes the condition {truth} with `{name}` = {env[name]}'
+    ctx.check(bad is None, ANA, fn, f'{INST}._implied', f'a branch refinement follows from the condition: `and` is split only when it holds, `or` only when it fails, `not` flips ({n} shapes x outcomes)',
+              (bad or '') + ': a bound would be tightened in an arm where the comparison need not hold')
+    # a failed ordering is its reverse only for the four orderings (a NaN fails every ordering; the constraint leaves specials untouched)
+    from ..tables import module_dict
+    neg = module_dict(ctx.repo, ANA, '_NEGATE')
+    rows = {norm(k): norm(v) for k, v in zip(neg.keys, neg.values)}
+    want = {'CompareOp.LT': 'CompareOp.GE', 'CompareOp.GE': 'CompareOp.LT', 'CompareOp.LE': 'CompareOp.GT', 'CompareOp.GT': 'CompareOp.LE'}
+    ctx.check(rows == want, ANA, neg, '_NEGATE', 'the negation table holds exactly the four orderings', f'got {rows}')
+    mc = ctx.fn(ANA, '_magnitude_constraint')
+    t = norm(mc, 3000)
+    ok = 'if op in (CompareOp.LT, CompareOp.LE) and c >= 0: return _unconstrained(pos_bound=b)' in t and 'if op in (CompareOp.GT, CompareOp.GE) and c <= 0: return _unconstrained(neg_bound=b)' in t \
+        and 'if not is_dyadic(c):' in t
+    ctx.check(ok, ANA, mc, '_magnitude_constraint', 'a comparison tightens only the bound it speaks about, only toward zero, only for a dyadic literal', 'changed')
+
+
 EXPLANATION = (
     'Structural decision over fpy2/analysis/format_infer (ast; the AbstractFormat operators are read by sa/minipy.py: the slice of each '
     'operator that computes its exponent, bounds and special-value flags is evaluated over an exhaustive family of stand-in formats - all 16 flag '
@@ -515,11 +585,18 @@ RULES = [
     Rule('C14.T2', 'containment agrees with membership; round_is_identity is containment in the target format', t2_containment, 10, 'T'),
     Rule('C14.D1', 'inference phis join both operands; loops iterate until stable with widening only past the limit; exact walk for known trip counts', d1_phi_updates, 21, 'D'),
     Rule('C14.X1', '_join_bounds returns an operand only under equality or proven containment', x1_join_table, 8, 'X'),
+    Rule('C14.T3', 'branch refinement follows from the condition (boolean skeleton of _implied; negation table; direction of the constraint)', t3_refinement_skeleton, 3, 'T'),
 ]
 
 from ..selftest import Mutant  # noqa: E402
 
 MUTANTS = [
+    # T3
+    Mutant('failed-conjunction-split', ANA, "            case And() if truth:\n                return [i for a in cond.args for i in self._implied(a, True)]", "            case And():\n                return [i for a in cond.args for i in self._implied(a, truth)]", 'C14.T3',
+           'seeded change C14a: the else arm of `x >= 4 and k >= 4` is refined to x < 4'),
+    Mutant('holding-disjunction-split', ANA, "            case Or() if not truth:\n                return [i for a in cond.args for i in self._implied(a, False)]", "            case Or():\n                return [i for a in cond.args for i in self._implied(a, truth)]", 'C14.T3'),
+    Mutant('negation-not-flipped', ANA, "                return self._implied(cond.arg, not truth)\n            case And() if truth:", "                return self._implied(cond.arg, truth)\n            case And() if truth:", 'C14.T3'),
+    Mutant('negated-equality-bounds', ANA, "    CompareOp.LE: CompareOp.GT, CompareOp.GT: CompareOp.LE,\n}", "    CompareOp.LE: CompareOp.GT, CompareOp.GT: CompareOp.LE,\n    CompareOp.NE: CompareOp.LE,\n}", 'C14.T3'),
     # T1
     Mutant('abs-ignores-negative-bound', FMT, "            self.prec, self.exp, self.bound, neg_bound=RealFloat.from_int(0),", "            self.prec, self.exp, self.pos_bound, neg_bound=RealFloat.from_int(0),", 'C14.T1',
            'finding F19 before its repair'),
